@@ -32,12 +32,14 @@ func checkC20(c *Ctx) {
 	c.Rule("C20/R7", "every in-repo fs.Writer.CloseWithError discards: it never publishes the file and, where the file already exists on disk, removes it")
 
 	c.Rule("C20/R9", "a file without benchmark lines fails the upload: the function that stores one file returns success only where that file's record count is known to be non-zero (or returns the count and every caller tests it)")
+	c.Rule("C20/R11", "server metadata cannot be overridden by content: every benchmark reader storage/app makes for an uploaded part receives the server's labels through AddLabels on every path before its first Next")
 	c.Rule("C20/R10", "an aborted upload stays invisible without hiding a committed one (same rule as C19/R8): in the upload listing the filter on the per-upload record count comes before every LIMIT, so the hidden rows of failed uploads use up no places")
 	c.Rule("C20/R8", "an upload ID is never handed out twice: the statement that creates the Uploads row is a plain INSERT (no REPLACE, no OR REPLACE/IGNORE, no ON CONFLICT/ON DUPLICATE KEY), so an ID that already exists is refused by the primary key instead of silently replacing the committed upload (and, through ON DELETE CASCADE, its records)")
 	pats := []string{"./storage", "./storage/app", "./storage/db", "./storage/fs", "./storage/fs/local", "./storage/benchfmt"}
 	p := mustLoad(c, loadOpts{}, pats...)
 	c20(c, p)
 	c.Under("C19/R8", "C20/R10", func() { c19Limit(c, p) })
+	c20ServerLabels(c, p)
 	if c.Tier == "thorough" && c.override == nil {
 		if p2, err := load(c, loadOpts{tags: "appengine"}, pats...); err == nil {
 			c20Dropped(c, p2)
@@ -1904,4 +1906,55 @@ func c20EmptyFile(c *Ctx, p *Prog) {
 		c.Check(callersOK && nCallers > 0, R, fnName(fn)+":empty-file-is-an-error", site, "the record count is returned and every caller tests it", "a file from which no benchmark line was read is stored and reported as a success: the function that writes one file returns a nil error without its own record count being known to be non-zero (and no caller tests that count per file), so an upload containing such a file is committed instead of being rejected and the file stays in the store")
 	}
 	c.Floor(R, "functions that store one file and queue its records", n, 1)
+}
+
+// c20ServerLabels (C20/R11): the records of an upload carry the server's metadata (upload, upload-part, upload-time,
+// by) as labels the content cannot override: in storage/app every benchmark reader made for an uploaded part is given
+// those labels through AddLabels before its first Next — AddLabels dominates every Next on that reader. Labels that
+// merely appear as a header in the text the reader parses are ordinary file configuration: a blank-separated block or
+// a later "upload:" line in the user's content replaces them.
+func c20ServerLabels(c *Ctx, p *Prog) {
+	const R = "C20/R11"
+	sb := modPath + "/storage/benchfmt"
+	n := 0
+	for _, fn := range p.Funcs("storage/app") {
+		eachInstr(fn, func(_ *ssa.BasicBlock, in ssa.Instruction) {
+			nr, ok := in.(*ssa.Call)
+			if !ok || !objIs(calleeObj(&nr.Call), sb, "", "NewReader") {
+				return
+			}
+			n++
+			var adds, nexts []*ssa.Call
+			eachInstr(fn, func(_ *ssa.BasicBlock, in2 ssa.Instruction) {
+				call, ok := in2.(*ssa.Call)
+				if !ok || len(call.Call.Args) == 0 || call.Call.Args[0] != ssa.Value(nr) {
+					return
+				}
+				switch {
+				case objIs(calleeObj(&call.Call), sb, "Reader", "AddLabels"):
+					adds = append(adds, call)
+				case objIs(calleeObj(&call.Call), sb, "Reader", "Next"):
+					nexts = append(nexts, call)
+				}
+			})
+			key := fmt.Sprintf("%s:reader#%d", fnName(fn), n)
+			if len(nexts) == 0 {
+				c.Undecided(R, key, p.pos(nr.Pos()), "the reader made here is not advanced in this function")
+				return
+			}
+			okAll := len(adds) > 0
+			for _, nx := range nexts {
+				dom := false
+				for _, a := range adds {
+					if instrDominates(a, nx) {
+						dom = true
+					}
+				}
+				okAll = okAll && dom
+			}
+			c.Check(okAll, R, key, p.pos(nr.Pos()), "the reader is given the server's labels before it reads the content",
+				"the reader that indexes an uploaded part is advanced without having been given the server's labels through AddLabels: the upload, upload-part, upload-time and by labels of its records then come from whatever the parsed text says, so content carrying its own 'upload:' or 'by:' lines is stored under another upload's ID and with forged metadata, and is not found under its own file ID")
+		})
+	}
+	c.Floor(R, "benchmark readers made for uploaded parts", n, 1)
 }
